@@ -29,6 +29,8 @@ func init() {
 		Assumptions: []string{"go/version.Compare returns -1/0/+1 with the documented meaning", "go/types fills Info.FileVersions from //go:build constraints and Config.GoVersion"},
 		Run:         runC20,
 		Mutants: []Mutant{
+			{Name: "stdlib-version-from-type-checker-file-version", File: "analysis/code/code.go", Rule: "R20.4", KeyPart: "StdlibVersion::file-version-is-the-raw-build-tag",
+				Old: "\tif nf := f.GoVersion; nf != \"\" {", New: "\tif nf := pass.TypesInfo.FileVersions[f]; f.GoVersion != \"\" {"},
 			{Name: "cache-key-uses-module-version-when-known", File: "lintcmd/runner/runner.go", Rule: "R20.2", KeyPart: "cache-key-includes-GoVersion",
 				Old: "\tfmt.Fprintf(h, \"go %s\\n\", r.GoVersion)\n", New: "\tgoVersion := r.GoVersion\n\tif m := a.Package.Module; m != nil && m.GoVersion != \"\" {\n\t\tgoVersion = \"go\" + m.GoVersion\n\t}\n\tfmt.Fprintf(h, \"go %s\\n\", goVersion)\n"},
 			{Name: "max-lang-writes-min", File: "analysis/report/report.go", Rule: "R20.1", KeyPart: "MaximumLanguageVersion",
@@ -600,6 +602,31 @@ func runC20(c *Ctx) {
 	c.Rule("R20.4", func() {
 		c.Floor("R20.4", 10)
 		sv := c.Func("analysis/code", "StdlibVersion")
+		// the file's own version must be the raw //go:build tag (ast.File.GoVersion): what go/types records in
+		// Info.FileVersions (and code.LanguageVersion returns) is clamped to at least go1.21 for tagged files, so
+		// below go1.21 — exactly where the tag decides the standard-library version — it is not the tag
+		{
+			var operands []ssa.Value
+			for _, ci := range CallsTo(sv, false, "go/version.Compare") {
+				operands = append(operands, ci.Common().Args...)
+			}
+			for _, r := range Returns(sv) {
+				operands = append(operands, ReturnOperand(r, 0))
+			}
+			bad := ""
+			for _, v := range operands {
+				if Derives(v, IsFieldOf("types.Info", "FileVersions")) {
+					bad = "types.Info.FileVersions"
+				}
+				if Derives(v, IsCallResult(codePkg+".LanguageVersion")) {
+					bad = "code.LanguageVersion"
+				}
+			}
+			c.Check(FuncKey(sv)+"::file-version-is-the-raw-build-tag", sv.Pos(), bad == "", "StdlibVersion must take a file's version from ast.File.GoVersion (the //go:build go1.N tag as written); %s is the type checker's view, which is raised to go1.21 for every tagged file, so a file tagged go1.18 in a go1.20 module would get the go1.21 standard library", bad)
+			if bad != "" {
+				return
+			}
+		}
 		evalStdlibVersion(c, sv)
 	})
 	c.Rule("R20.5", func() {
